@@ -324,6 +324,12 @@ func parseRole(s string) *AV {
 		return &AV{Elem: strAV(layoutEXT)}
 	case "ids:SP":
 		return &AV{Elem: strAV(layoutSP)}
+	case "seq:EXT":
+		out := &AV{}
+		for _, k := range layoutEXT {
+			out.Seq = append(out.Seq, &AV{Scalar: k})
+		}
+		return out
 	case "ids:H":
 		return &AV{Elem: strAV(layoutH)}
 	case "ids:V":
@@ -1252,6 +1258,8 @@ var roleTable = map[string][2]string{
 	"transform.GetVoxelIDfromSpatialID":                            {"id:EXT", ""},
 	"common.CalculateArithmeticShift":                              {"-,-", ""},
 	"common/object.NewExtendedSpatialID":                           {"id:EXT", ""},
+	"common/object.(ExtendedSpatialID).ID":                         {"", "id:EXT"},
+	"common/object.(*ExtendedSpatialID).FieldParams":               {"", "seq:EXT"},
 	"common/object.(*ExtendedSpatialID).ResetExtendedSpatialID":    {"id:EXT", ""},
 	"common/object.(ExtendedSpatialID).Higher":                     {"HZ,VZ", ""},
 	"common/object.(*ExtendedSpatialID).SetZoom":                   {"HZ,VZ", ""},
